@@ -19,6 +19,8 @@ class HC:
 class HO:
     """harness object `o` with method m returning its arguments as a vector"""
 
+    fld = 7
+
     def __init__(self, vec):
         self._vec = vec
 
